@@ -88,8 +88,21 @@ def check(case):
     A = np.array([p[0] for p in case["pairs"]], dtype=float)
     B = np.array([p[1] for p in case["pairs"]], dtype=float)
     lam = float(case["lam"])
-    r = np.asarray(lim(A, B), dtype=float)
+    A0, B0 = A.copy(), B.copy()
+    r = np.array(lim(A, B), dtype=float, copy=True)
     require(r.shape == A.shape, "array-shape", "result shape %s for input shape %s" % (r.shape, A.shape))
+    # a function of its arguments: they are left untouched, a second call gives the same bits, and so do strided views and a 2-row array of the same numbers
+    require(np.array_equal(A, A0) and np.array_equal(B, B0), "arguments-unchanged", "%s modified its argument arrays" % case["limiter"])
+    r2 = np.asarray(lim(A, B), dtype=float)
+    require(np.array_equal(r2, r), "repeatable", "%s: a second call on the same arrays gives %r, the first gave %r" % (case["limiter"], r2.tolist(), r.tolist()))
+    bigA, bigB = np.full(2 * len(A) + 1, 7.5), np.full(3 * len(A), -0.3)
+    bigA[1::2] = A
+    bigB[::3] = B
+    rv = np.asarray(lim(bigA[1::2], bigB[::3]), dtype=float)
+    require(rv.shape == A.shape and np.array_equal(rv, r), "elementwise-views", "%s on strided views of the same numbers gives %r instead of %r" % (case["limiter"], rv.tolist(), r.tolist()))
+    r2d = np.asarray(lim(np.vstack([A, A]), np.vstack([B, B])), dtype=float)
+    require(r2d.shape == (2, len(A)) and np.array_equal(r2d[0], r) and np.array_equal(r2d[1], r), "elementwise-2d", "%s on a 2-row array of the same pairs gives %r instead of two rows %r"
+            % (case["limiter"], r2d.tolist(), r.tolist()))
     labels = set()
     nontrivial = False
     worst = 0.0
